@@ -752,6 +752,206 @@ fn gen_c06(cfg: &GenCfg, rng: &mut Rng, w: &mut dyn Write, kind: &str) {
     }
 }
 
+/// all ordered subsets (partial orders) of `0..n`
+fn partial_orders(n: u32) -> Vec<Vec<u32>> {
+    let mut out = vec![vec![]];
+    fn go(cur: &mut Vec<u32>, n: u32, out: &mut Vec<Vec<u32>>) {
+        for v in 0..n {
+            if !cur.contains(&v) {
+                cur.push(v);
+                out.push(cur.clone());
+                go(cur, n, out);
+                cur.pop();
+            }
+        }
+    }
+    go(&mut Vec::new(), n, &mut out);
+    out
+}
+
+fn gen_c08(cfg: &GenCfg, rng: &mut Rng, w: &mut dyn Write, kind: &str) {
+    if zbdd(kind) {
+        // ZBDD reordering of live nodes is a known finding (own stream `kf-zbdd-reorder`);
+        // reordering an empty ZBDD manager and building afterwards is covered by the preludes
+        for (oi, order) in perms(3).iter().enumerate() {
+            writeln!(w, "case c08-zbdd-empty-o{}", oi).unwrap();
+            prelude(w, 3, order, 1, 256, true);
+            for f in (0..256).step_by(5) {
+                writeln!(w, "show f{}", f).unwrap();
+            }
+        }
+        return;
+    }
+    // n = 3: every source order, all 256 functions alive, a chain through all partial and total targets
+    let n = 3u32;
+    let mut targets = partial_orders(n);
+    for (oi, src) in perms(n).iter().enumerate() {
+        if !cfg.thorough && oi % 2 == 1 {
+            continue;
+        }
+        for seq in [0, 1] {
+            if seq == 1 && !cfg.thorough && oi != 0 {
+                continue;
+            }
+            writeln!(w, "case c08-n3-src{}-seq{}", oi, seq).unwrap();
+            prelude(w, n, src, if seq == 1 { 1 } else { 2 }, 256, true);
+            rng.shuffle(&mut targets);
+            for (ti, t) in targets.iter().enumerate() {
+                writeln!(w, "order {} seq={}", order_str(t), seq).unwrap();
+                for _ in 0..12 {
+                    writeln!(w, "show f{}", rng.below(256)).unwrap();
+                }
+                // subsequent operations, collections and further reorderings behave as on a
+                // freshly built diagram
+                for _ in 0..6 {
+                    writeln!(w, "op r {} f{} f{}", rng.pick(&BIN_OPS), rng.below(256), rng.below(256)).unwrap();
+                }
+                writeln!(w, "count f{}", rng.below(256)).unwrap();
+                if ti % 4 == 3 {
+                    writeln!(w, "gc").unwrap();
+                    writeln!(w, "dump").unwrap();
+                }
+            }
+        }
+    }
+    // n = 4: sampled functions, all source x sampled targets
+    let n = 4u32;
+    let targets = partial_orders(n);
+    let srcs = perms(n);
+    let ncases = if cfg.thorough { srcs.len() } else { 4 };
+    for ci in 0..ncases {
+        let src = &srcs[if cfg.thorough { ci } else { rng.below(srcs.len() as u64) as usize }];
+        writeln!(w, "case c08-n4-{}", ci).unwrap();
+        prelude(w, n, src, 1, 256, false);
+        let nfun = if cfg.thorough { 400 } else { 120 };
+        for f in 0..nfun {
+            writeln!(w, "{} f{} {:x}", if f % 2 == 0 { "tt" } else { "ttb" }, f, rng.below(1 << 16)).unwrap();
+        }
+        for _ in 0..(if cfg.thorough { 30 } else { 10 }) {
+            writeln!(w, "order {}", order_str(&targets[rng.below(targets.len() as u64) as usize])).unwrap();
+            for _ in 0..8 {
+                writeln!(w, "show f{}", rng.below(nfun)).unwrap();
+            }
+            writeln!(w, "op r {} f{} f{}", rng.pick(&BIN_OPS), rng.below(nfun), rng.below(nfun)).unwrap();
+            if rng.chance(1, 3) {
+                writeln!(w, "gc").unwrap();
+                writeln!(w, "dump").unwrap();
+            }
+        }
+    }
+    // random orders on 5..10 variables with random live functions, chains mixed with operations and gc
+    let cases = if cfg.thorough { 40 } else { 6 } * cfg.scale;
+    for c in 0..cases {
+        let n = rng.range(5, 10) as u32;
+        let mut order: Vec<u32> = (0..n).collect();
+        rng.shuffle(&mut order);
+        writeln!(w, "case c08-rand-{}-n{}", c, n).unwrap();
+        prelude(w, n, &order, *rng.pick(&[1u32, 4]), 1024, false);
+        let mut pool = rand_pool(w, rng, n, if cfg.thorough { 120 } else { 60 });
+        for s in 0..(if cfg.thorough { 40 } else { 15 }) {
+            let k = rng.range(0, n as u64) as usize;
+            rng.shuffle(&mut order);
+            writeln!(w, "order {}{}", order_str(&order[..k]), if rng.chance(1, 4) { " seq=1" } else { "" }).unwrap();
+            for _ in 0..5 {
+                writeln!(w, "show {}", rng.pick(&pool)).unwrap();
+            }
+            for j in 0..4 {
+                let name = format!("p{}_{}", s, j);
+                writeln!(w, "op {} {} {} {}", name, rng.pick(&BIN_OPS), rng.pick(&pool), rng.pick(&pool)).unwrap();
+                pool.push(name);
+            }
+            if rng.chance(1, 3) {
+                let i = rng.below(pool.len() as u64) as usize;
+                writeln!(w, "drop {}", pool.swap_remove(i)).unwrap();
+                writeln!(w, "gc").unwrap();
+            }
+        }
+    }
+    // many threads with >= 65536 nodes: this is what switches on the concurrent bubble sort
+    if cfg.thorough {
+        let n = 12u32;
+        writeln!(w, "case c08-concurrent").unwrap();
+        writeln!(w, "mgr nodes=1048576 cache=65536 threads=8 vars={}", n).unwrap();
+        let mut pool: Vec<String> = Vec::new();
+        for v in 6..n {
+            writeln!(w, "var x{} {}", v, v).unwrap();
+            writeln!(w, "notvar nx{} {}", v, v).unwrap();
+            pool.push(format!("x{v}"));
+            pool.push(format!("nx{v}"));
+        }
+        for s in 0..45000 {
+            let name = format!("g{s}");
+            let lo = pool.len().saturating_sub(4000);
+            writeln!(w, "op {} {} {} {}", name, rng.pick(&BIN_OPS), rng.pick(&pool[lo..]), rng.pick(&pool)).unwrap();
+            pool.push(name);
+        }
+        writeln!(w, "nodes").unwrap();
+        for _ in 0..3 {
+            let mut order: Vec<u32> = (0..n).collect();
+            rng.shuffle(&mut order);
+            writeln!(w, "order {}", order_str(&order)).unwrap();
+            for _ in 0..30 {
+                writeln!(w, "show {}", rng.pick(&pool)).unwrap();
+            }
+        }
+    }
+}
+
+/// C14: scripted operations under every capacity 0..C_max (capped + reference manager)
+fn gen_c14(cfg: &GenCfg, rng: &mut Rng, w: &mut dyn Write, kind: &str) {
+    let scripts = if cfg.thorough { 24 } else { 6 } * cfg.scale;
+    for sc in 0..scripts {
+        let n = rng.range(3, 4) as u32;
+        let seed = rng.next();
+        let cmax = if cfg.thorough { 60 } else { 40 };
+        let step = if cfg.thorough { 1 } else { 3 };
+        let threads = if sc % 5 == 4 { 4 } else { 1 };
+        // ZBDD managers keep a tautology chain of one node per variable; variable creation itself
+        // aborts when it does not fit (known finding, stream `kf-zbdd-addvars-oom`)
+        let mut cap = if zbdd(kind) { n as usize } else { 0 };
+        while cap <= cmax {
+            let mut r2 = Rng(seed);
+            writeln!(w, "case c14-s{}-cap{}-t{}", sc, cap, threads).unwrap();
+            writeln!(w, "mgr nodes={} cache=16 threads={} vars={}", cap, threads, n).unwrap();
+            let hcfg = Hist { steps: 45, dump_every: 0, audit_every: 0, count_every: 0, nodes_every: 9, reorder: false, addvars: false, gc_prob: 2, quant: true };
+            history(w, &mut r2, kind, n, &hcfg, 4);
+            // once space has been freed the same kind of operations succeed again
+            writeln!(w, "var y0 0").unwrap();
+            writeln!(w, "var y1 1").unwrap();
+            writeln!(w, "op y2 and y0 y1").unwrap();
+            cap += step;
+        }
+    }
+}
+
+/// known finding: ZBDD reordering with live nodes (own process: it may abort)
+fn gen_kf_zbdd_reorder(w: &mut dyn Write) {
+    writeln!(w, "case kf-zbdd-reorder-1").unwrap();
+    writeln!(w, "mgr nodes=4096 cache=64 threads=1 vars=3").unwrap();
+    writeln!(w, "tt f1 14").unwrap();
+    writeln!(w, "order 0 2 1").unwrap();
+    writeln!(w, "show f1").unwrap();
+}
+
+/// known finding: ZBDD add_vars aborts the process when the tautology chain does not fit
+fn gen_kf_zbdd_addvars_oom(w: &mut dyn Write) {
+    writeln!(w, "case kf-zbdd-addvars-oom-1").unwrap();
+    writeln!(w, "mgr nodes=2 cache=64 threads=1 vars=3").unwrap();
+    writeln!(w, "const t T").unwrap();
+}
+
+/// known finding: set_var_order aborts the process when the store is full
+fn gen_kf_reorder_oom(w: &mut dyn Write) {
+    writeln!(w, "case kf-reorder-oom-1").unwrap();
+    writeln!(w, "mgr nodes=7 cache=64 threads=1 vars=3").unwrap();
+    writeln!(w, "tt f1 e8").unwrap();
+    writeln!(w, "gc").unwrap();
+    writeln!(w, "tt f2 96").unwrap();
+    writeln!(w, "nodes").unwrap();
+    writeln!(w, "order 2 1 0").unwrap();
+    writeln!(w, "show f1").unwrap();
+}
+
 fn generate(cfg: &GenCfg, rng: &mut Rng, w: &mut dyn Write) {
     let kind = cfg.extra.get("kind").map(|s| s.as_str()).unwrap_or("bdd").to_string();
     let suite = cfg.extra.get("suite").map(|s| s.as_str()).unwrap_or("c02").to_string();
@@ -759,6 +959,11 @@ fn generate(cfg: &GenCfg, rng: &mut Rng, w: &mut dyn Write) {
         "c02" => gen_c02(cfg, rng, w, &kind),
         "c01" | "c03" | "c05" => gen_hist(cfg, rng, w, &kind, &suite),
         "c06" => gen_c06(cfg, rng, w, &kind),
+        "c08" => gen_c08(cfg, rng, w, &kind),
+        "c14" => gen_c14(cfg, rng, w, &kind),
+        "kf-zbdd-reorder" => gen_kf_zbdd_reorder(w),
+        "kf-reorder-oom" => gen_kf_reorder_oom(w),
+        "kf-zbdd-addvars-oom" => gen_kf_zbdd_addvars_oom(w),
         "c04" => gen_c04(cfg, rng, w, &kind),
         "c09" => gen_c09(cfg, rng, w, &kind),
         "c12" => gen_c12(cfg, rng, w, &kind),
